@@ -16,12 +16,12 @@
 EXTENDS Mempool, Json
 
 Trace == ndJsonDeserialize("trace.ndjson")
-Scen == JsonDeserialize("scenario.json")        \* [baseh, txs : Seq([id, ins, outs, vsize])] written by the driver
+Scen == JsonDeserialize("scenario.json")        \* [baseh, ids : Seq(id), tx : [id as string -> [ins, outs, vsize]]] written by the driver
 
-TraceIds == {Scen.txs[i].id : i \in 1..Len(Scen.txs)}
-TraceTxDef == [t \in TraceIds |->
-                 LET r == Scen.txs[CHOOSE i \in 1..Len(Scen.txs) : Scen.txs[i].id = t]
-                 IN [ins |-> r.ins, outs |-> r.outs, vsize |-> r.vsize]]
+\* (TLC re-evaluates a definition that is substituted for a constant at every use: the table must be cheap to
+\* build - a lookup by key, not a search - or validation time grows with the square of the universe)
+TraceIds == {Scen.ids[i] : i \in 1..Len(Scen.ids)}
+TraceTxDef == [t \in TraceIds |-> Scen.tx[ToString(t)]]
 
 VARIABLES
     l,      \* next event
